@@ -134,16 +134,16 @@ Theorem C14_emap_add_valid : forall N m m2 n, vmap N m n -> n < length m2 ->
 Proof. exact emap_add_valid. Qed.
 Print Assumptions C14_emap_add_valid.
 
-(* TRACE current_Ks reshuffle on removal: exactly the sub-matrix and inside the allocation for every
-   N in 2..7 and every index but the last (bounded, by computation) ... *)
-Theorem C14_trace_Ks_remove_bounded :
-  forallb (fun n => forallb (fun i => ks_case_ok n i) (seq 0 (n - 1))) (seq 2 6) = true.
-Proof. exact ks_remove_ok_bounded. Qed.
-Print Assumptions C14_trace_Ks_remove_bounded.
-(* ... and misaligned when the LAST particle is removed (witness N = 3, index 2; confirmed on the library) *)
-Theorem C14_trace_Ks_remove_last_refuted : exists n, 2 <= n /\ ks_case_ok n (n - 1) = false.
-Proof. exact ks_remove_last_refuted. Qed.
-Print Assumptions C14_trace_Ks_remove_last_refuted.
+(* TRACE current_Ks reshuffle on removal (in place): for EVERY N = n+1 and every index (the last one
+   included), entry (a,b) of the new n x n matrix is entry (a',b') of the old N x N matrix, where a' (b')
+   skips [index]; all accesses stay inside the N*N allocation *)
+Theorem C14_trace_Ks_remove_exact : forall n index k ob k' ob', S n * S n <= length k ->
+  ks_rows n 0 n (S n) index k ob = (k', ob') ->
+  ob' = ob /\ length k' = length k /\
+  forall a b, a < n -> b < n ->
+    nth (a * n + b) k' 0%Z = nth ((if a <? index then a else S a) * S n + (if b <? index then b else S b)) k 0%Z.
+Proof. exact ks_remove_exact. Qed.
+Print Assumptions C14_trace_Ks_remove_exact.
 
 (* Non-vacuity: a reachable state with a STALE lookup table (4 entries for 3 particles: (9 -> slot 3) points
    past N, (5 -> slot 0) points at a particle that now carries hash 9), reached through an unsorted removal of
